@@ -20,6 +20,8 @@ CLAUSES = {
     "extglob_negation_not_complement": "!(...) is encoded as (?:(?!alts).*|(?>alts).+?|) which is not the complement of the alternatives",
     "nocasematch_folds_named_class": "with nocasematch a named class such as [[:upper:]] is case-folded by the regex engine; bash does not fold classes",
     "named_class_ascii_only": "named classes such as [[:alpha:]] are ASCII-only in the regex crate; bash in a UTF-8 locale classifies multi-byte characters too",
+    "dotfile_rule_reads_empty_first_piece": "Pattern::expand decides 'the component starts with a dot' on the first PIECE of the component; after a piece that ends in / (d/'.'a*, d/\".\"*, d/$n*) that piece is empty, so dot-files stay hidden although the component starts with a dot",
+    "extglob_on_by_default": "brush starts every shell with extglob on (shell.rs: 'shell.options.extended_globbing = true', a workaround for parsing the whole script with one setting); bash starts non-interactive shells with it off, so p='@(a|b)'; case a in $p) matches in a fresh brush and not in a fresh bash",
     "regex_engine_repeated_plus_group": "the regex engine answers (X)+ Y (X)+ (from +(X)…+(X): same X twice, Y able to match the empty string, e.g. * or ?(a)) as if one occurrence of X sufficed",
 }
 
@@ -878,6 +880,386 @@ def judge_piece_glob(ctx, st, case, c, b, o, m):
         ctx.violation("piece-split pattern: pathname expansion differs from bash", case)
 
 
+
+# ----------------------------------------------------------------------------------------------
+# the leading dot of a path component, delivered every way, in first and later components
+
+D_TREE = {"top": ["a", "ab", "b", ".a", ".ab", ".b", "..x", "d", ".d"],
+          "d": ["a", "ab", ".a", ".ab"],
+          ".d": ["a", ".a", "b"]}
+D_DIRS = {"d": "d", ".d": ".d"}                      # entry name -> listing key (everything else is a file)
+D_DOT_DELIVERIES = [("p", "inline"), ("l", "sq"), ("l", "dq"), ("l", "bs"), ("l", "dqv"), ("l", "dqvb"), ("p", "v"), ("p", "vb")]
+
+
+def dot_family(ctx):
+    tails = ["a*", "*", "a?", "[ab]*", "?", "a", "??", "[!b]*"]
+    prefixes = [[], [("p", "d/", "inline")], [("p", ".d/", "inline")], [("p", "*/", "inline")], [("l", "d", "dq"), ("p", "/", "inline")]]
+    out = []
+    for pre in prefixes:
+        for (k, how) in D_DOT_DELIVERIES:
+            for t in tails:
+                out.append(PCase(pre + [(k, ".", how), ("p", t, "inline")], "leading dot %s, then %s" % (how, t)))
+        # the dot together with the following character in one quoted piece / variable
+        for how in ("dq", "sq", "dqv"):
+            out.append(PCase(pre + [("l", ".a", how), ("p", "*", "inline")], "quoted .a then *"))
+        out.append(PCase(pre + [("p", ".a", "v"), ("p", "*", "inline")], "$n* with n=.a"))
+        # patterns that must NOT see dot-files although they could match the dot
+        # (kept out: @(.a|a)* and ?(.)a* - bash lets an extglob alternative that starts with a dot match a leading
+        #  dot; the property's wording, and brush, hide dot-files unless the component itself starts with a dot)
+        for t in ["[.]a*", "?a*", "*a", "*", "[!x]a*", "@(a|b)*"]:
+            out.append(PCase(pre + [("p", t, "inline" if not shell_unsafe_inline(t.replace("(", "").replace("|", "").replace(")", "")) else "v")], "no leading dot: " + t))
+    # the dot-delivered component first, a plain one after it
+    for (k, how) in D_DOT_DELIVERIES:
+        out.append(PCase([(k, ".", how), ("p", "d/a*", "inline")], "dot-delivered first component (literal)"))
+        out.append(PCase([(k, ".", how), ("p", "*/a", "inline")], "dot-delivered first component (glob)"))
+        out.append(PCase([(k, ".", how), ("p", "*/", "inline"), (k, ".", how), ("p", "a*", "inline")], "dot delivered in both components"))
+    seen, res = set(), []
+    for c in out:
+        key = (c.src, tuple(c.assigns))
+        if key not in seen:
+            seen.add(key)
+            res.append(c)
+    return res
+
+
+def split_components(c):
+    """the piece list of each path component (pieces are cut at every /)"""
+    comps, cur = [], []
+    merged = []                      # split_fields glues adjacent unquoted pieces together first
+    for k, t, h in c.pieces:
+        if merged and k == "p" and merged[-1][0] == "p":
+            merged[-1] = ("p", merged[-1][1] + t)
+        else:
+            merged.append((k, t))
+    for k, t in merged:
+        parts = t.split("/")
+        for i, part in enumerate(parts):
+            if i > 0:
+                comps.append(cur)
+                cur = []
+            # Pattern::expand keeps the empty piece that `d/` leaves at the start of the next component (its dot-file rule skips
+            # empty pieces since the repair; the clause dotfile_rule_reads_empty_first_piece stays below as a tripwire)
+            if part != "" or (i > 0 and i == len(parts) - 1):
+                cur.append((k, part))
+    comps.append(cur)
+    return comps
+
+
+def empty_first_piece_before_dot(c):
+    """a later component starts (in brush's cutting) with an empty piece and means something that starts with a dot"""
+    return any(ci > 0 and comp and comp[0][1] == "" and "".join(t for _, t in comp).startswith(".")
+               for ci, comp in enumerate(split_components(c)))
+
+
+def stage_D(ctx):
+    fam = dot_family(ctx)
+    d = tempfile.mkdtemp(prefix="c08-dots-")
+    st = {"nv": 0}
+    try:
+        root = os.path.join(d, "top")
+        os.mkdir(root)
+        for nme in D_TREE["top"]:
+            if nme in D_DIRS:
+                os.mkdir(os.path.join(root, nme))
+                for x in D_TREE[D_DIRS[nme]]:
+                    open(os.path.join(root, nme, x), "w").close()
+            else:
+                open(os.path.join(root, nme), "w").close()
+        existing = set(D_TREE["top"]) | {"%s/%s" % (dn, x) for dn, key in D_DIRS.items() for x in D_TREE[key]}
+        cfgs = [(1, 0, ""), (1, 1, ""), (0, 0, "nullglob"), (1, 0, "failglob")] if ctx.quick else \
+               [(e, dg, o) for e in (0, 1) for dg in (0, 1) for o in ("", "nullglob", "failglob")]
+        for (ext, dg, opt) in cfgs:
+            cases = [c for c in fam if ext or not c.needs_ext_parse()]
+            cases = [c for c in cases if ext or "@(" not in c.wire()]
+            header = "cd %s || exit 9\nunset GLOBIGNORE\nshopt -%s extglob; shopt -%s dotglob; IFS=\n%s" % (
+                sq(root), "s" if ext else "u", "s" if dg else "u", ("shopt -s %s\n" % opt) if opt else "")
+
+            def run(which):
+                def one(chunk):
+                    script = header
+                    for i in chunk:
+                        c = cases[i]
+                        script += "printf '#%d#'\n%s( set -- %s; printf '<%%s>' \"$@\" ) 2>/dev/null\n" % (
+                            i, "".join("%s=%s\n" % (v, sq(t)) for v, t in c.assigns), c.src)
+                    r = lib.run_shell(which, script, mode="file", timeout=900)
+                    parts = re.split(r"#(\d+)#", r["out"])
+                    return {int(k): v for k, v in zip(parts[1::2], parts[2::2])}
+                res = {}
+                for dd in lib.pmap(one, lib.chunked(list(range(len(cases))), lib.NCPU)):
+                    res.update(dd)
+                return res
+            bo, oo = run("brush"), run("bash")
+            # the model, component by component: one PG request per (component, directory listing)
+            reqs, idx = [], {}
+            comps_of = [split_components(c) for c in cases]
+            for i, comps in enumerate(comps_of):
+                for ci, comp in enumerate(comps):
+                    if not comp or all(t == "" for _, t in comp):
+                        continue
+                    w = " ".join("%s:%s" % (k, esc(t)) for k, t in comp)
+                    for dk, names in D_TREE.items():
+                        idx[(i, ci, dk)] = len(reqs)
+                        reqs.append("C08 PG %d 0 %d %s -- %s" % (ext, dg, w, " ".join(esc(x) for x in names)))
+            mo = lib.run_drv_parallel(reqs)
+
+            def walk(i, which):
+                paths = [("", "top")]
+                for ci, comp in enumerate(comps_of[i]):
+                    nxt = []
+                    if not comp or all(t == "" for _, t in comp):                     # empty component (trailing /): keep directories only
+                        paths = [(pfx, dk) for (pfx, dk) in paths if dk is not None]
+                        continue
+                    for (pfx, dk) in paths:
+                        if dk is None:
+                            continue
+                        f = mo[idx[(i, ci, dk)]].split(" ")
+                        r = f[which] if len(f) == 2 else "?"
+                        if r == "?":
+                            return None
+                        if r == "NOEXP":
+                            lit = "".join(t for _, t in comp)
+                            got = [lit] if lit in D_TREE[dk] else []
+                        elif r == "NONE":
+                            got = []
+                        else:
+                            got = [unesc(x) for x in r.split(",")]
+                        for nme in got:
+                            nxt.append((pfx + nme + "/", D_DIRS.get(nme) if dk == "top" else None))
+                    paths = nxt
+                return sorted(pfx.rstrip("/") for pfx, _ in paths)
+
+            def canon(out):
+                if out is None:
+                    return "LOST"
+                words = re.findall(r"<([^<>]*)>", out)
+                if not words or words == [""]:
+                    return "NONE"                    # nullglob: no word at all (printf prints <>); failglob: the command was not run
+                if len(words) == 1 and words[0].rstrip("/") not in existing:
+                    return "KEPT"
+                return ",".join(w.rstrip("/") for w in words)
+            for i, c in enumerate(cases):
+                ctx.evals += 1
+                ctx.distinct.add(hash(("d", ext, dg, opt, c.src, tuple(c.assigns))))
+                ctx.bucket("dot_delivery_%s" % (opt or "plain"))
+                b, o = canon(bo.get(i)), canon(oo.get(i))
+                impl, spec = walk(i, 0), walk(i, 1)
+                unm = "KEPT" if not opt else "NONE"
+                mi = unm if impl == [] else (",".join(impl) if impl is not None else "?")
+                ms = unm if spec == [] else (",".join(spec) if spec is not None else "?")
+                case = dict(c.as_json(), consumer="pathname expansion, dot-file policy", extglob=ext, dotglob=dg, option=opt or "-",
+                            tree=D_TREE, brush=b, bash=o, model=mi, spec=ms)
+                if b != mi:
+                    if st["nv"] < 10:
+                        st["nv"] += 1
+                        ctx.violation("leading-dot delivery: pathname expansion in brush differs from the model of Pattern::expand" +
+                                      ("; and from bash" if b != o else ""), case, kind="property" if b != o else "correspondence")
+                    continue
+                if b == o:
+                    continue
+                if ms != o:
+                    ctx.oracle_mismatch += 1
+                    continue
+                if c.has_bang():
+                    ctx.known_or_violation("extglob_negation_not_complement", "leading-dot delivery: " + CLAUSES["extglob_negation_not_complement"], case)
+                elif empty_first_piece_before_dot(c) and not dg:
+                    ctx.known_or_violation("dotfile_rule_reads_empty_first_piece", "brush %s, bash %s: %s" % (b, o, CLAUSES["dotfile_rule_reads_empty_first_piece"]), case)
+                elif st["nv"] < 10:
+                    st["nv"] += 1
+                    ctx.violation("leading-dot delivery: pathname expansion differs from bash (brush %s, bash %s)" % (b, o), case)
+        if fam:
+            ctx.sample({"dot_delivery": fam[3].as_json()})
+    finally:
+        shutil.rmtree(d, ignore_errors=True)
+
+
+
+# ----------------------------------------------------------------------------------------------
+# context sweep: the same (pattern, subject) probes in other execution contexts and under options
+
+C_TREE = ["a", "ab", "abc", "b", "A", "Ab", ".a", ".ab", "d/a", "d/b", "d/.a", "e/a"]
+C_FIXED = [("a*", "ab"), ("A*", "ab"), ("@(a|b)", "a"), ("?(a)b", "ab"), ("[[:upper:]]*", "Ab"), ("*", ".a"), (".*", ".a"), ("[ab]", "a"),
+           ("\\*", "*"), ("a?", "ab"), ("+(a)", "aaa"), ("[!a]*", "b"), ("*b", "ab"), ("[a-c]?", "ab"), ("d/*", "d/a"), ("*/a", "d/a"),
+           ("a*c", "abc"), ("[]a]*", "]x"), ("*(a|b)c", "abc"), ("ab", "ab"), ("A?", "ab"), ("?", "a"), ("[A-B]*", "ab"), ("*/.a", "d/.a")]
+
+C_PROBE = """case $s in $p) echo c1;; *) echo c0;; esac
+if [[ $s == $p ]]; then echo e1; else echo e0; fi
+if [[ $s == "$p" ]]; then echo q1; else echo q0; fi
+if [[ $s != $p ]]; then echo n1; else echo n0; fi
+x=${s##$p}; echo "r<$x>"
+x=${s%%$p}; echo "R<$x>"
+set -- $p; echo "g<$*>"
+"""
+# (${v/p/r} is left to C06's sweep: where a pattern can match the empty string the two shells place the replacement differently,
+#  C06 replace_empty_match_differs, and an option that changes the pattern's meaning brings that in without a fresh-shell baseline)
+
+
+# options that legitimately change what a pattern means or what pathname expansion yields: in a fresh shell they are baselines
+# (what the pattern does under them is the business of the other stages); the sweep judges them inside the sequences
+C_BASELINE_OPTIONS = {"option: " + o for o in ["shopt -s nullglob", "shopt -s dotglob", "shopt -s extglob", "shopt -s nocasematch", "shopt -s nocaseglob",
+                                                 "shopt -s failglob", "shopt -u extglob", "shopt -s extglob nocasematch dotglob nocaseglob"]}
+
+
+def c_units(p, s, p2, srcfile):
+    """(name, script text) for every context / option / sequence; every unit runs in its own subshell"""
+    A = "p=%s; s=%s\n" % (sq(p), sq(s))
+    B = C_PROBE
+    hide = "p='zz*'; s=zz\n"
+    loc = "local p=%s s=%s\n" % (sq(p), sq(s))
+    u = [("plain", A + B)]
+    u.append(("function, locals hiding globals", hide + "f() { " + loc + B + "}\nf\n"))
+    u.append(("two functions deep (dynamic scope)", hide + "g() {\n" + B + "}\nf() { " + loc + "g\n}\nf\n"))
+    u.append(("subshell", A + "(\n" + B + ")\n"))
+    # (inside $( ) the case labels carry their leading parenthesis: brush cannot parse the bare form there, finding C15-1)
+    BP = B.replace("in $p) echo c1;; *) echo c0", "in ($p) echo c1;; (*) echo c0")
+    u.append(("command substitution", A + "out=$(\n" + BP + ")\necho \"$out\"\n"))
+    u.append(("eval", A + "eval " + sq(B) + "\n"))
+    u.append(("brace group with a redirect", A + "{\n" + B + "} 2>/dev/null\n"))
+    u.append(("last stage of a pipeline, lastpipe", A + "shopt -s lastpipe\necho x | { read _\n" + B + "}\n"))
+    u.append(("for body", A + "for i in 1; do\n" + B + "done\n"))
+    u.append(("while body", A + "while :; do\n" + B + "break; done\n"))
+    # (the EXIT trap context runs as a script of its own, see stage_C: brush does not run a subshell's own EXIT trap, finding C16-3)
+    u.append(("sourced file", A + ". " + sq(srcfile) + "\n"))
+    u.append(("twice in the same shell", A + B + B))
+    u.append(("function in a command substitution in eval", hide + "f() { " + loc + B + "}\neval 'out=$(f)'; echo \"$out\"\n"))
+    for opt in ["set -u", "set -f", "set -e", "set -E", "set -T", "set +h", "set -C", "shopt -s nullglob", "shopt -s dotglob", "shopt -s globstar",
+                "shopt -s expand_aliases", "shopt -s lastpipe", "shopt -s inherit_errexit", "shopt -s extglob", "shopt -s nocasematch",
+                "shopt -s nocaseglob", "shopt -s failglob", "shopt -u extglob", "shopt -s extglob nocasematch dotglob nocaseglob"]:
+        u.append(("option: " + opt, opt + "\n" + A + B))
+    tog = A + B
+    for o in ["nocasematch", "extglob", "nocaseglob", "dotglob", "globstar", "nullglob"]:
+        tog += "shopt -s %s\n%sshopt -u %s\n%s" % (o, B, o, B)
+    u.append(("same pattern, options toggled between uses", tog))
+    u.append(("same pattern, options toggled inside a function", hide + "f() { " + loc + tog.replace(A, "") + "}\nf\n"))
+    u.append(("plain (other pattern)", "p=%s; s=%s\n" % (sq(p2), sq(s)) + B))
+    u.append(("two patterns alternating", A + B + "p=%s\n" % sq(p2) + B + "p=%s\n" % sq(p) + B + "p=%s\n" % sq(p2) + B +
+              "shopt -s nocasematch\np=%s\n" % sq(p) + B))
+    u.append(("after cd into another directory and back", A + B + "cd d\n" + B + "cd ..\n" + B + "cd e\n" + B))
+    u.append(("extglob switched on inside the function, next line", "shopt -u extglob\n" + A + "f() { shopt -s extglob\n" + B + "}\nf\n" + B))
+    u.append(("extglob switched on inside the function, same line", "shopt -u extglob\n" + A + "f() { shopt -s extglob; " + B.replace("\n", "; ", 1) + "}\nf\n"))
+    u.append(("extglob switched off inside the function", "shopt -s extglob\n" + A + "f() { shopt -u extglob\n" + B + "}\nf\n" + B))
+    u.append(("set -f then set +f", A + "set -f\n" + B + "set +f\n" + B))
+    u.append(("pattern in a local array element and positional parameter", hide + "f() { local -a arr=(x %s); local p=${arr[1]} s=$1\n" % sq(p) + B + "}\nf %s\n" % sq(s)))
+    return u
+
+
+def stage_C(ctx):
+    rng = ctx.rng
+    cases = list(C_FIXED)
+    alpha = list("ab*?[]-!A.") + ["@(a|b)", "[ab]", "?(a)", "*(b)", "[[:alpha:]]", "\\*"]
+    for _ in range(ctx.size(40, 600)):
+        pt = "".join(rng.choice(alpha) for _ in range(rng.randint(1, 4)))
+        cases.append((pt, rng.choice(["a", "ab", "b", "Ab", ".a", "abc", "", "*", "a-b", "]"])))
+    if ctx.quick:
+        cases = rng.sample(C_FIXED, 18) + cases[len(C_FIXED):]
+    d = tempfile.mkdtemp(prefix="c08-ctx-")
+    nv = 0
+    try:
+        root = os.path.join(d, "root")
+        for f in C_TREE:
+            os.makedirs(os.path.dirname(os.path.join(root, f)), exist_ok=True)
+            open(os.path.join(root, f), "w").close()
+        src = os.path.join(d, "probe.sh")
+        open(src, "w").write(C_PROBE)
+        # every unit starts from a stated extglob setting: brush starts with extglob ON (shell.rs, deliberate: the whole script is
+        # parsed with one setting), bash with it off - see the clause extglob_on_by_default, witnessed once below
+        units = []
+        for ci, (p, s) in enumerate(cases):
+            p2 = cases[(ci + 1) % len(cases)][0]
+            for base in ("u", "s"):
+                for name, text in c_units(p, s, p2, src):
+                    units.append(((ci, base), name, "shopt -%s extglob\n" % base + text))
+
+        def run(which):
+            def one(chunk):
+                script = "cd %s || exit 9\n" % sq(root)
+                for i in chunk:
+                    script += "printf '#%d#'\n(\n%s) 2>/dev/null\n" % (i, units[i][2])
+                r = lib.run_shell(which, script, mode="file", timeout=1800)
+                parts = re.split(r"#(\d+)#", r["out"])
+                return {int(k): v for k, v in zip(parts[1::2], parts[2::2])}
+            res = {}
+            for dd in lib.pmap(one, lib.chunked(list(range(len(units))), lib.NCPU)):
+                res.update(dd)
+            return res
+        bo, oo = run("brush"), run("bash")
+        # the EXIT trap handler context: one shell process per case
+        base0 = len(units)
+        for ci, (p, s) in enumerate(cases):
+            for base in ("u", "s"):
+                units.append(((ci, base), "EXIT trap handler", "shopt -%s extglob\np=%s; s=%s\ntrap %s EXIT\n:\n" % (base, sq(p), sq(s), sq(C_PROBE))))
+        def trap_run(which):
+            outs = lib.pmap(lambda i: lib.run_shell(which, "cd %s || exit 9\n%s" % (sq(root), units[i][2]), mode="file", timeout=60)["out"],
+                            list(range(base0, len(units))))
+            return {base0 + j: v for j, v in enumerate(outs)}
+        bo.update(trap_run("brush"))
+        oo.update(trap_run("bash"))
+        # A context is judged only where the two shells agree in a FRESH shell on everything the unit is made of: the plain unit,
+        # and for units that switch options or patterns, the fresh-shell unit of every option / pattern they go through
+        # (a divergence there belongs to the pattern itself and is judged, and classified, by the other stages).
+        agree = {}
+        for i, (ci, name, text) in enumerate(units):
+            agree[(ci, name)] = (bo.get(i) == oo.get(i) and oo.get(i) is not None)
+        toggled = ["option: shopt -s %s" % o for o in ("nocasematch", "extglob", "nocaseglob", "dotglob", "globstar", "nullglob")] + ["option: shopt -u extglob"]
+
+        def fresh_ok(ci, name):
+            need = [(ci, "plain")]
+            if "toggled" in name:
+                need += [(ci, t) for t in toggled]
+            if "alternating" in name:
+                need += [(ci, "plain (other pattern)"), (ci, "option: shopt -s nocasematch")]
+            if "extglob switched on" in name:
+                need += [(ci, "option: shopt -s extglob")]
+            if "extglob switched off" in name:
+                need += [(ci, "option: shopt -s extglob"), (ci, "option: shopt -u extglob")]
+            return all(agree.get(k) for k in need)
+        for i, (ci, name, text) in enumerate(units):
+            p, s = cases[ci[0]]
+            ctx.evals += 1
+            if not fresh_ok(ci, name):
+                ctx.bucket("context_sweep_skipped_fresh_shell_differs")
+                continue
+            # bash quirk kept out: with extglob OFF bash still takes an unquoted X(...) word for a glob when deciding nullglob/failglob
+            # (it removes `@(a|b)`); by the property's wording, and in brush, it is plain text then
+            if re.search(r"[@?*+!]\(", p) and ("nullglob" in name or "failglob" in name or "toggled" in name):
+                ctx.bucket("context_sweep_skipped_bash_extglob_off_quirk")
+                continue
+            if name.startswith("plain") or name in C_BASELINE_OPTIONS:
+                continue                                             # the fresh-shell baselines themselves
+            ctx.bucket("context_sweep_units")
+            ctx.distinct.add(hash(("ctx", p, s, ci[1], name)))
+            b, o = bo.get(i), oo.get(i)
+            if b == o:
+                continue
+            bl, ol = (b or "").split("\n"), (o or "").split("\n")
+            k = next((j for j in range(min(len(bl), len(ol))) if bl[j] != ol[j]), min(len(bl), len(ol)))
+            case = {"context": name, "pattern": p, "subject": s, "first_difference": {"line": k, "brush": bl[k:k + 1], "bash": ol[k:k + 1]},
+                    "script": "cd <dir with %s>\n(\n%s)" % (" ".join(C_TREE), text), "brush": b, "bash": o}
+            cl = context_clause(name, p, b, o)
+            if cl:
+                ctx.known_or_violation(cl, "context sweep (%s): %s" % (name, CLAUSES[cl]), case)
+            elif nv < 10:
+                nv += 1
+                ctx.violation("context sweep: in the context '%s' brush and bash print different answers for the same pattern probes (they agree at top level)" % name, case)
+        # the one place where the initial setting is looked at
+        b0, o0 = lib.run_both("shopt -q extglob; echo $?")
+        ctx.evals += 1
+        if b0["out"] != o0["out"]:
+            ctx.known_or_violation("extglob_on_by_default", "a fresh non-interactive shell: " + CLAUSES["extglob_on_by_default"],
+                                   {"context": "fresh shell", "script": "shopt -q extglob; echo $?", "brush": b0["out"], "bash": o0["out"]})
+        ctx.sample({"context_sweep": {"pattern": cases[0][0], "subject": cases[0][1], "contexts": [n for n, _ in c_units("p", "s", "q", src)]}})
+    finally:
+        shutil.rmtree(d, ignore_errors=True)
+
+
+def context_clause(name, p, b, o):
+    # the regex engine folds named classes under (?i); nocaseglob switches it on for pathname expansion just as nocasematch does for matching
+    if "[:" in p and ("nocaseglob" in name or "nocasematch" in name or "toggled" in name or "alternating" in name):
+        bl, ol = (b or "").split("\n"), (o or "").split("\n")
+        if len(bl) == len(ol) and all(x == y or x[:1] in "cengrR" for x, y in zip(bl, ol)):
+            return "nocasematch_folds_named_class"
+    return None
+
+
 # ----------------------------------------------------------------------------------------------
 
 def run(ctx):
@@ -894,12 +1276,18 @@ def run(ctx):
     stage_Q(ctx)
     stage_G(ctx)
     stage_P(ctx)
+    stage_D(ctx)
+    stage_C(ctx)
     ctx.cov["rule"] = ("T: every pattern text over %d characters up to length 4/5 (+random to 12 fragments over a wide alphabet) x extglob on/off, regex text "
                        "string-equal; M: in-process exactly_matches vs the Lean regex semantics on every subject over {a,b,newline,]} up to length 3/4; "
                        "E/Q: case, [[ == ]], ${v##p} and inline quoted patterns in the brush binary vs bash 5.2 vs model vs spec; "
                        "G: pathname expansion in real directories x extglob/dotglob/nullglob; P: piece-split patterns - every construct (bracket expressions, "
                        "each extglob operator, ?/* next to text, whole quoted/variable-borne patterns) cut at every position with the middle quoted (\"..\", '..', \\c, \"$v\") or from "
                        "a variable ($v, ${v}) - through case, [[ == ]], [[ != ]], ${v##p}, ${v%%%%p}, ${v/p/r} and pathname expansion, brush vs bash vs piece model vs spec. "
+                       "D: the leading dot of a path component in every delivery (bare, '.', \".\", \\., \"$d\", $d, ${d}, together with the next character) "
+                       "in first and later components of a tree with dot-files and a dot-directory x dotglob/nullglob/failglob; "
+                       "C: context sweep - a sample of (pattern, subject) probes (case, [[ == ]] unquoted and quoted, [[ != ]], ${v##p}, ${v%%%%p}, pathname expansion) "
+                       "re-run in 14 execution contexts, under 19 option settings and in 10 option/pattern/directory sequences, each from extglob off and on, brush vs bash on identical text. "
                        "non-trivial = distinct (config, pattern)" % len(PA))
     ctx.assumptions += ["fancy_regex/regex crates implement the modelled regex subset as Re.run does (sampled by tie M on every run)",
                         "add_missing_escape_chars_to_regex is the identity on emitted text (every [ inside a bracket is already escaped by pattern.rs)",
@@ -912,17 +1300,42 @@ def replay(ctx, rp):
     lib.cargo_build([BIN])
     case = rp["case"]
     print(json.dumps(case, indent=1, ensure_ascii=False))
+    if "context" in case and "script" in case:
+        d = tempfile.mkdtemp(prefix="c08-replay-")
+        for f in C_TREE:
+            os.makedirs(os.path.dirname(os.path.join(d, f)), exist_ok=True)
+            open(os.path.join(d, f), "w").close()
+        open(os.path.join(d, "probe.sh"), "w").write(C_PROBE)
+        script = case["script"]
+        if script.startswith("cd <dir"):
+            script = "cd %s\n" % sq(d) + script.split("\n", 1)[1]
+        script = re.sub(r"\. '[^']*probe\.sh'", ". " + sq(os.path.join(d, "probe.sh")), script)
+        b, o = lib.run_both(script, mode="file")
+        shutil.rmtree(d, ignore_errors=True)
+        print(script)
+        print("--- brush:\n" + b["out"] + "--- bash:\n" + o["out"])
+        return 1 if b["out"] != o["out"] else 0
     if "pieces" in case and "source" in case:
         P = case["source"]
         pre = "shopt -%s extglob; shopt -%s nocasematch; IFS=\n" % ("s" if case.get("extglob") else "u", "s" if case.get("nocasematch") else "u")
         pre += "".join("%s=%s\n" % (v, sq(t)) for v, t in case.get("vars", {}).items())
         cons, s0 = case.get("consumer", "case"), case.get("subject", "")
         d = None
-        if cons == "pathname expansion":
+        if cons.startswith("pathname expansion"):
             d = tempfile.mkdtemp(prefix="c08-replay-")
-            for nme in case.get("names", P_NAMES):
-                open(os.path.join(d, nme), "w").close()
-            body = "cd %s\nset -- %s; printf '<%%s>' \"$@\"; echo" % (sq(d), P)
+            if "tree" in case:
+                for nme in case["tree"]["top"]:
+                    if nme in D_DIRS:
+                        os.mkdir(os.path.join(d, nme))
+                        for x in case["tree"][D_DIRS[nme]]:
+                            open(os.path.join(d, nme, x), "w").close()
+                    else:
+                        open(os.path.join(d, nme), "w").close()
+                pre += "shopt -%s dotglob\n" % ("s" if case.get("dotglob") else "u") + ("shopt -s %s\n" % case["option"] if case.get("option", "-") != "-" else "")
+            else:
+                for nme in case.get("names", P_NAMES):
+                    open(os.path.join(d, nme), "w").close()
+            body = "cd %s\n( set -- %s; printf '<%%s>' \"$@\" ); echo" % (sq(d), P)
         elif cons == "case":
             body = "case %s in %s) echo 1;; *) echo 0;; esac" % (sq(s0), P)
         elif cons == "[[ == ]]":
